@@ -156,11 +156,35 @@ def histories():
         await L.op({"kind": "delete", "box": "tmp"}, w.op_delete(a, "tmp"))
         await L.op({"kind": "noop"}, w.op_select(a, "INBOX"))
 
+    async def h_rename_inbox_small(w, L, rnd):
+        """Short history around one RENAME INBOX of a quiet INBOX (every message
+        seen and looked at: nothing marks the folder as having news), followed by
+        polls of the emptied INBOX and work in the new mailbox: every kill point is
+        explored.  What was acknowledged -- INBOX empty, the messages in the new
+        mailbox -- is what a restart must show."""
+        a = w.session()
+        for i in range(3):
+            await L.op({"kind": "append", "box": "INBOX"}, w.op_append(a, "INBOX", flags=[["\\Seen"], ["\\Seen", "kw1"], ["\\Seen", "\\Flagged"]][i]))
+        await L.op({"kind": "select", "box": "INBOX"}, w.op_select(a, "INBOX"))
+        await L.op({"kind": "fetch", "box": "INBOX"}, w.op_fetch(a, [1, 2, 3], "FLAGS"))
+        await L.op({"kind": "noop", "box": "INBOX"}, w.op_noop(a))
+        await L.op({"kind": "unselect", "box": "INBOX"}, w.op_unselect(a))
+        await L.op({"kind": "select", "box": "INBOX"}, w.op_select(a, "INBOX"))
+        await L.op({"kind": "rename_inbox", "box": "INBOX", "dst": "saved"}, w.op_rename(a, "INBOX", "saved"))
+        await L.op({"kind": "noop", "box": "INBOX"}, w.op_noop(a))
+        L.send({"kind": "advance", "box": "INBOX"})
+        await w.rig.advance(30)
+        L.done(w)
+        await L.op({"kind": "noop", "box": "INBOX"}, w.op_noop(a))
+        await L.op({"kind": "select", "box": "saved"}, w.op_select(a, "saved"))
+        await L.op({"kind": "store", "box": "saved"}, w.op_store(a, [2], "add", ["\\Answered"]))
+        await L.op({"kind": "noop", "box": "saved"}, w.op_noop(a))
+
     async def h_startup_only(w, L, rnd):
         L.send({"kind": "noop"})
         L.done(w)
 
-    return {"messages": h_messages, "namespace": h_copy_move_namespace, "inboxpack": h_rename_inbox_pack_delivery, "startup": h_startup_only, "expunge": h_expunge_small, "deletebox": h_delete_small}
+    return {"messages": h_messages, "namespace": h_copy_move_namespace, "inboxpack": h_rename_inbox_pack_delivery, "startup": h_startup_only, "expunge": h_expunge_small, "deletebox": h_delete_small, "renameinbox": h_rename_inbox_small}
 
 
 class OpLog:
